@@ -46,9 +46,13 @@ Definition row := list cell.
 Definition vkind_eqb (a b : vkind) : bool :=
   match a, b with VKey, VKey | VName, VName | VEmpty, VEmpty => true | _, _ => false end.
 
+Definition ctype_eqb (a b : ctype) : bool :=
+  match a, b with TNum, TNum | TStr, TStr | TList, TList => true | _, _ => false end.
+
+(** the implementation compares *Column pointers; one name resolves to one column *)
 Definition rcol_eqb (a b : rcol) : bool :=
   match a, b with
-  | RB n _ _, RB m _ _ => str_eqb n m
+  | RB n i t, RB m j u => str_eqb n m && Nat.eqb i j && ctype_eqb t u
   | RV k, RV l => vkind_eqb k l
   | _, _ => false
   end.
@@ -320,10 +324,11 @@ Definition final_value (k : skind) (a : acc) : Z * Z :=
   | S _ => match k with SAvg => (a_val a, Z.of_nat (a_cnt a)) | _ => (a_val a, 1%Z) end
   end.
 
+(** one accumulator per Stats header (rows of another width never get here) *)
 Fixpoint zip_apply (ks : list skind) (accs : list acc) (vs : list Z) : list acc :=
-  match ks, accs, vs with
-  | k :: ks', a :: accs', v :: vs' => apply_value k a v :: zip_apply ks' accs' vs'
-  | _, _, _ => []
+  match ks with
+  | [] => []
+  | k :: ks' => apply_value k (hd (mkAcc 0 0) accs) (hd 0%Z vs) :: zip_apply ks' (tl accs) (tl vs)
   end.
 
 (** decimal rendering of a number used as group key (fmt %v of a small integral float64) *)
